@@ -159,6 +159,14 @@ impl Prop for C14 {
         }
         Case { inst, ops, hash_seed: rng.next() }
     }
+    fn sibling(&self, c: &Case) -> Option<Case> {
+        // every sixth case is preceded, in the same run, by another case of the property (generated from its hash seed)
+        if c.hash_seed % 6 != 4 {
+            return None;
+        }
+        Some(self.gen(&mut Rng::new(c.hash_seed ^ 0x51B1_1B15), Tier::Quick, 0))
+    }
+
     fn sim_params(&self, c: &Case) -> SimParams {
         SimParams { hash_seed: c.hash_seed, ..Default::default() }
     }
